@@ -1,11 +1,127 @@
 (** Lemmas about [get_subset] (C04). *)
-From Coq Require Import List Bool Arith Lia.
-From DV Require Import Common.Res Common.Str Ext.Types Ext.Classes Ext.Seq Ext.Model Ext.Spec.
+From Coq Require Import List Bool Arith NArith Lia.
+From DV Require Import Common.Res Common.Str Ext.Types Ext.Classes Ext.Seq Ext.SeqFacts Ext.Model Ext.Spec
+     Ext.TableFacts Ext.ValidFacts Ext.ProofsSimplify.
 Import ListNotations.
 Local Open Scope nat_scope.
 
+(** region of the open finding N2: a 4-D / 5-D shape whose LAST extent is 1 *)
+Definition no_trailing1 (sh : list nat) : bool := (length sh <=? 3) || negb (last sh 0 =? 1).
+
+(** which grid coordinate a subset dimension addresses *)
+Inductive axis := AxSlice | AxNone | AxTime | AxVector.
+Definition axis_of (h : hdr) (dim : nat) : axis :=
+  if odim_is (sdim h) dim then AxSlice else if dim <? 3 then AxNone else if dim =? 3 then AxTime else AxVector.
+Definition set_axis (a : axis) (i : nat) (p : pos) : pos :=
+  let '(s, t, v) := p in
+  match a with AxSlice => (i, t, v) | AxNone => p | AxTime => (s, i, v) | AxVector => (s, t, i) end.
+
+Lemma make_empty_hdr_hwf sh a sd hr :
+  make_empty_hdr sh a sd = Ok hr -> Forall (fun n => 1 <= n) sh -> hwf hr /\ shape hr = sh /\ sdim hr = sd.
+Proof.
+  unfold make_empty_hdr. intros H Hpos.
+  destruct (negb ((3 <=? length sh) && (length sh <? 6))) eqn:E1; [discriminate|].
+  destruct (negb _) eqn:E2 in H; [discriminate|].
+  destruct (negb (match sd with Some d => d <? 3 | None => true end)) eqn:E3; [discriminate|].
+  injection H as <-. cbn [shape sdim]. split; [|split; reflexivity].
+  apply negb_false_iff in E1. apply andb_true_iff in E1 as [Ha Hb]. apply Nat.leb_le in Ha. apply Nat.ltb_lt in Hb.
+  apply negb_false_iff in E3.
+  unfold hwf, ndim. cbn [shape sdim has_time has_vec]. split; [lia|]. split; [exact Hpos|]. split.
+  - intros d Hd. subst sd. apply Nat.ltb_lt. exact E3.
+  - unfold class_ok. destruct (length sh) as [|[|[|[|[|[|n]]]]]]; try lia; cbn; split; reflexivity.
+Qed.
+
+Lemma subset_hdr_rel h hr dim :
+  3 <= ndim h <= 5 -> Forall (fun n => 1 <= n) (shape h) -> (forall d, sdim h = Some d -> d < 3) ->
+  no_trailing1 (shape h) = true -> dim < ndim h ->
+  subset_hdr h dim = Ok hr ->
+  hwf hr /\ sdim hr = sdim h /\
+  (let '(nS, nT, nV) := dims h in
+   dims hr = match axis_of h dim with
+             | AxSlice => (1, nT, nV) | AxNone => (nS, nT, nV) | AxTime => (nS, 1, nV) | AxVector => (nS, nT, 1)
+             end) /\
+  class_ok (shape hr) TSamples = (match axis_of h dim with AxTime => false | _ => class_ok (shape h) TSamples end) /\
+  class_ok (shape hr) VSamples = (match axis_of h dim with AxVector => false | _ => class_ok (shape h) VSamples end).
+Proof.
+  intros Hn Hpos Hsd Hnt Hdim Hs. unfold subset_hdr in Hs.
+  destruct (5 <=? dim) eqn:E5; [discriminate|]. apply Nat.leb_gt in E5.
+  destruct (negb (ndim_ok h)); [discriminate|].
+  destruct (set_nth dim 1 (shape h)) as [sh'|] eqn:Es; [|discriminate].
+  assert (Hpos' : Forall (fun n => 1 <= n) (trim_ones sh')).
+  { unfold ndim in *. rewrite Forall_forall in Hpos.
+    destruct (shape h) as [|a [|b [|c0 [|t [|v [|x r]]]]]]; cbn [length] in Hn, Hdim; try lia;
+      destruct dim as [|[|[|[|[|?]]]]]; try lia; cbn in Es; injection Es as <-;
+      cbn; repeat match goal with |- context [?x =? 1] => destruct (x =? 1) end;
+      repeat constructor; try (apply Hpos; cbn; tauto). }
+  destruct (make_empty_hdr_hwf _ _ _ _ Hs Hpos') as [Hw [Hsh Hsd']].
+  split; [exact Hw|]. split; [exact Hsd'|].
+  unfold dims, axis_of, odim_is. rewrite Hsh, Hsd'. unfold ndim, no_trailing1 in *.
+  destruct (shape h) as [|a [|b [|c0 [|t [|v [|x r]]]]]]; cbn [length] in Hn, Hdim; try lia;
+    destruct dim as [|[|[|[|[|?]]]]]; try lia; cbn in Es; injection Es as <-;
+    cbn [length Nat.leb orb last] in Hnt; try (apply negb_true_iff in Hnt);
+    destruct (sdim h) as [[|[|[|?]]]|] eqn:Esd; try (specialize (Hsd _ eq_refl); lia);
+    cbn [trim_ones trim_fuel length Nat.ltb Nat.leb andb last removelast Nat.eqb];
+    try rewrite Hnt;
+    repeat match goal with |- context [?x =? 1] => destruct (x =? 1) eqn:? end;
+    cbn; try (repeat split; reflexivity); try discriminate;
+    repeat match goal with H : (?x =? 1) = true |- _ => apply Nat.eqb_eq in H; try subst x end;
+    repeat match goal with H : (?x =? 1) = false |- _ => rewrite ?H; clear H end;
+    cbn; repeat split; reflexivity.
+Qed.
+
+Definition hwf0 (h : hdr) : Prop :=
+  3 <= ndim h <= 5 /\ Forall (fun n => 1 <= n) (shape h) /\ (forall d, sdim h = Some d -> d < 3).
+
+Lemma hwf_hwf0 h : hwf h -> hwf0 h.
+Proof. intros [A [B [C _]]]. exact (conj A (conj B C)). Qed.
+
+Lemma dims_pos0 h : hwf0 h -> let '(nS, nT, nV) := dims h in 1 <= nS /\ 1 <= nT /\ 1 <= nV.
+Proof.
+  intros [Hn [Hpos Hsd]]. unfold dims, ndim in *. rewrite Forall_forall in Hpos.
+  assert (G : forall i, 1 <= nth i (shape h) 1).
+  { intros i. destruct (Nat.lt_ge_cases i (length (shape h))) as [Hi|Hi].
+    - apply Hpos. apply nth_In. exact Hi.
+    - rewrite nth_overflow by exact Hi. lia. }
+  repeat split; try apply G. destruct (sdim h); [apply G | lia].
+Qed.
+
+Lemma n_slices_dims0 h d : hwf0 h -> sdim h = Some d -> n_slices h = Some (fst (fst (dims h))).
+Proof.
+  intros [Hn [_ Hsd]] Hd. unfold n_slices, dims. rewrite Hd. cbn [fst]. f_equal.
+  apply nth_indep. specialize (Hsd _ Hd). unfold ndim in Hn. lia.
+Qed.
+
+Lemma class_ok_base sh c : 3 <= length sh <= 5 ->
+  class_ok sh c = match base_of c with
+                  | BGlobal => true | BTime => class_ok sh TSamples | BVector => class_ok sh VSamples end.
+Proof. intros H. unfold class_ok. destruct (length sh) as [|[|[|[|[|[|n]]]]]]; try lia; destruct c; reflexivity. Qed.
+
+Lemma class_T_false_dims h : 3 <= ndim h <= 5 -> class_ok (shape h) TSamples = false -> snd (fst (dims h)) = 1.
+Proof.
+  unfold ndim, dims, class_ok. cbn [fst snd base_of]. intros Hn.
+  destruct (shape h) as [|a [|b [|c0 [|t [|v [|x r]]]]]]; cbn [length] in *; try lia; cbn; try discriminate; try reflexivity.
+  intros H. apply negb_false_iff, Nat.eqb_eq in H. exact H.
+Qed.
+
+Lemma class_V_false_dims h : 3 <= ndim h <= 5 -> class_ok (shape h) VSamples = false -> snd (dims h) = 1.
+Proof.
+  unfold ndim, dims, class_ok. cbn [fst snd base_of]. intros Hn.
+  destruct (shape h) as [|a [|b [|c0 [|t [|v [|x r]]]]]]; cbn [length] in *; try lia; cbn; try discriminate; reflexivity.
+Qed.
+
+Lemma axis_idx_bound h dim idx : hwf0 h -> dim < ndim h -> idx < nth dim (shape h) 0 ->
+  let '(nS, nT, nV) := dims h in
+  match axis_of h dim with AxSlice => idx < nS | AxNone => True | AxTime => idx < nT | AxVector => idx < nV end.
+Proof.
+  intros [Hn [_ Hsd]] Hd Hi. unfold dims, axis_of, odim_is, ndim in *.
+  destruct (shape h) as [|a [|b [|c0 [|t [|v [|x r]]]]]]; cbn [length] in *; try lia;
+    destruct dim as [|[|[|[|[|?]]]]]; try lia;
+    destruct (sdim h) as [[|[|[|?]]]|] eqn:Esd; try (specialize (Hsd _ eq_refl); lia); cbn in *; try exact I; exact Hi.
+Qed.
+
 Section WithV.
   Context {V : Type} (veqb : V -> V -> bool) (vnone : V).
+  Hypothesis veqb_spec : forall a b, reflect (a = b) (veqb a b).
 
   Lemma make_empty_hdr_fields sh a sd h :
     make_empty_hdr sh a sd = Ok h -> shape h = sh /\ sdim h = sd /\ aff h = a.
@@ -31,5 +147,431 @@ Section WithV.
     destruct (set_nth dim 1 (shape (hdr_of e))) as [sh|] eqn:Es; [|discriminate].
     apply make_empty_hdr_fields in Hh as [H1 [H2 H3]].
     exists sh. repeat split; assumption.
+  Qed.
+
+  Notation den_k := (den_k vnone).
+
+  Lemma put_ok hr c (vs : list V) : hwf hr -> class_ok (shape hr) c = true -> put hr c vs = Ok (Some (c, vs)).
+  Proof.
+    intros [Hn [_ [_ [Ht Hv]]]] Hok. unfold put.
+    rewrite (class_ok_base _ c Hn) in Hok.
+    destruct c; cbn [base_of has_base] in *; try reflexivity; rewrite ?Ht, ?Hv, Hok; reflexivity.
+  Qed.
+
+  Lemma has_base_ok hr c : hwf hr -> class_ok (shape hr) c = true -> has_base hr (base_of c) = true.
+  Proof.
+    intros [Hn [_ [_ [Ht Hv]]]] Hok. rewrite (class_ok_base _ c Hn) in Hok.
+    destruct c; cbn [base_of has_base] in *; try reflexivity; rewrite ?Ht, ?Hv; exact Hok.
+  Qed.
+
+  (** store [vals] under [d] in the result, simplify, and read position [p] *)
+  Lemma put_simplify_den hr d (vals : list V) s' target p :
+    hwf hr -> class_ok (shape hr) d = true -> (is_slices d = true -> sdim hr <> None) ->
+    length vals = mult_spec (dims hr) d -> (d = VSlices -> has_time hr = false) ->
+    simplify_k veqb vnone hr (Some (d, vals)) = Ok s' -> in_dims (dims hr) p ->
+    nth (cidx (dims hr) d p) vals vnone = target -> den_k hr s' p = target.
+  Proof.
+    intros Hw Hok Hsl Hlen Hvs Hs Hp <-.
+    rewrite (simplify_k_den veqb vnone veqb_spec hr d vals s' Hw (conj Hok (conj Hsl Hlen)) Hvs Hs p Hp).
+    unfold ProofsSimplify.den_k. rewrite Hok. reflexivity.
+  Qed.
+
+  Local Ltac fin hr d Hwr Hokd Hs Hin :=
+    eapply (put_simplify_den hr d);
+    [exact Hwr | exact Hokd | discriminate | | discriminate | exact Hs | exact Hin | ].
+
+  Local Ltac fins hr d Hwr Hokd Hs Hin :=
+    eapply (put_simplify_den hr d);
+    [exact Hwr | exact Hokd | intros _; congruence | | discriminate | exact Hs | exact Hin | ].
+
+  (** ** subset along the slice axis: [_copy_slice] *)
+  Lemma copy_slice_den h hr c vs idx s' nS nT nV :
+    hwf0 h -> hwf hr -> sdim hr = sdim h ->
+    dims h = (nS, nT, nV) -> dims hr = (1, nT, nV) ->
+    class_ok (shape hr) TSamples = class_ok (shape h) TSamples ->
+    class_ok (shape hr) VSamples = class_ok (shape h) VSamples ->
+    idx < nS -> entry_ok h c vs -> is_slices c = true ->
+    copy_slice_k veqb vnone h hr c vs idx = Ok s' ->
+    forall t v, t < nT -> v < nV -> den_k hr s' (0, t, v) = den_k h (Some (c, vs)) (idx, t, v).
+  Proof.
+    intros Hw0 Hwr Hsd Ed Edr HcT HcV Hidx [Hok [Hsl Hlen]] Hc Hs t v Ht Hv.
+    pose proof (dims_pos0 h Hw0) as Hpos. rewrite Ed in Hpos. destruct Hpos as [HS [HT HV]].
+    destruct Hw0 as [Hn [Hposh Hsdh]]. pose proof Hwr as [Hnr _].
+    assert (Hns0 : forall d, sdim h = Some d -> n_slices h = Some nS).
+    { intros d Hd. rewrite (n_slices_dims0 h d (conj Hn (conj Hposh Hsdh)) Hd), Ed. reflexivity. }
+    destruct (sdim h) as [d0|] eqn:Esd; [|exfalso; apply (Hsl Hc); reflexivity].
+    pose proof (Hns0 _ eq_refl) as Hns.
+    destruct copy_dests_eq as [CG [CV _]].
+    assert (HmT : class_ok (shape hr) TSamples = true -> multiplicity hr TSamples = Ok (nT * nV)).
+    { intros E. rewrite (multiplicity_ok hr TSamples Hnr E ltac:(discriminate)), Edr. reflexivity. }
+    assert (HmV : class_ok (shape hr) VSamples = true -> multiplicity hr VSamples = Ok nV).
+    { intros E. rewrite (multiplicity_ok hr VSamples Hnr E ltac:(discriminate)), Edr. reflexivity. }
+    assert (HmG : multiplicity hr GConst = Ok 1).
+    { rewrite (multiplicity_ok hr GConst Hnr); [reflexivity | rewrite (class_ok_base _ _ Hnr); reflexivity | discriminate]. }
+    assert (HokG : class_ok (shape hr) GConst = true) by (rewrite (class_ok_base _ _ Hnr); reflexivity).
+    assert (Hin : in_dims (dims hr) (0, t, v)) by (rewrite Edr; cbn; lia).
+    unfold ProofsSimplify.den_k at 2. rewrite Hok, Ed. rewrite Ed in Hlen.
+    unfold copy_slice_k in Hs. rewrite Hns in Hs.
+    assert (Hst : (match nS with 0 => Err EValue | S _ => Ok nS end : res nat) = Ok nS) by (destruct nS; [lia|reflexivity]).
+    unfold first_valid in Hs. rewrite CG, CV in Hs. cbn [find] in Hs. rewrite !class_valid_ok in Hs. rewrite ?HokG in Hs.
+    destruct c; try discriminate Hc; cbn [base_of bind] in Hs.
+    - (* GSlices *)
+      cbn [mult_spec] in Hlen.
+      assert (Hsub : length (every_nth idx nS vs) = nT * nV).
+      { apply every_nth_length; [lia | exact Hidx | rewrite Hlen; ring]. }
+      destruct (class_ok (shape hr) TSamples) eqn:ET.
+      + cbn [bind] in Hs. rewrite (has_base_ok hr TSamples Hwr ET), (HmT eq_refl) in Hs. cbn [negb bind] in Hs.
+        rewrite Hst in Hs. cbn [bind] in Hs. rewrite Hsub, Nat.ltb_irrefl in Hs. cbn [bind] in Hs.
+        fin hr TSamples Hwr ET Hs Hin; [rewrite Edr; exact Hsub|].
+        rewrite Edr. cbn [cidx]. rewrite every_nth_nth by lia. f_equal. ring.
+      + assert (EnT : nT = 1) by (pose proof (class_T_false_dims h Hn (eq_sym HcT)) as X; rewrite Ed in X; exact X).
+        subst nT. destruct (class_ok (shape hr) VSamples) eqn:EV.
+        * cbn [bind] in Hs. rewrite (has_base_ok hr VSamples Hwr EV), (HmV eq_refl) in Hs. cbn [negb bind] in Hs.
+          rewrite Hst in Hs. cbn [bind] in Hs. rewrite Hsub in Hs. replace (1 * nV) with nV in Hs by lia.
+          rewrite Nat.ltb_irrefl in Hs. cbn [bind] in Hs.
+          fin hr VSamples Hwr EV Hs Hin; [rewrite Edr, Hsub; cbn [mult_spec]; lia|].
+          rewrite Edr. cbn [cidx]. rewrite every_nth_nth by lia. f_equal. nia.
+        * assert (EnV : nV = 1) by (pose proof (class_V_false_dims h Hn (eq_sym HcV)) as X; rewrite Ed in X; exact X).
+          subst nV. cbn [bind] in Hs. cbn [base_of has_base negb] in Hs. rewrite HmG in Hs. cbn [bind] in Hs.
+          rewrite Hst in Hs. cbn [bind] in Hs. rewrite Hsub in Hs. cbn [Nat.mul Nat.add Nat.ltb Nat.leb bind] in Hs.
+          fin hr GConst Hwr HokG Hs Hin; [rewrite Edr, Hsub; reflexivity|].
+          rewrite Edr. cbn [cidx]. rewrite every_nth_nth by lia. f_equal. nia.
+    - (* TSlices *)
+      cbn [mult_spec] in Hlen. cbn [base_of has_base negb] in Hs. rewrite HmG in Hs. cbn [bind] in Hs.
+      rewrite Hst in Hs. cbn [bind] in Hs.
+      assert (Hsub : length (every_nth idx nS vs) = 1).
+      { apply every_nth_length; [lia | exact Hidx | rewrite Hlen; ring]. }
+      rewrite Hsub in Hs. cbn [Nat.ltb Nat.leb bind] in Hs.
+      fin hr GConst Hwr HokG Hs Hin; [rewrite Edr, Hsub; reflexivity|].
+      rewrite Edr. cbn [cidx]. rewrite every_nth_nth by lia. f_equal. lia.
+    - (* VSlices *)
+      cbn [mult_spec] in Hlen.
+      assert (Hsub : length (every_nth idx nS vs) = nT).
+      { apply every_nth_length; [lia | exact Hidx | rewrite Hlen; ring]. }
+      destruct (class_ok (shape hr) TSamples) eqn:ET.
+      + cbn [bind] in Hs. rewrite (has_base_ok hr TSamples Hwr ET), (HmT eq_refl) in Hs. cbn [negb bind] in Hs.
+        rewrite Hst in Hs. cbn [bind] in Hs. rewrite Hsub in Hs.
+        destruct (nT <? nT * nV) eqn:Elt.
+        * assert (E0 : (nT =? 0) = false) by (apply Nat.eqb_neq; lia). rewrite E0 in Hs. cbn [bind] in Hs.
+          replace (nT * nV / nT) with nV in Hs by (symmetry; rewrite Nat.mul_comm; apply Nat.div_mul; lia).
+          fin hr TSamples Hwr ET Hs Hin;
+            [rewrite Edr, rep_list_length, Hsub; cbn [mult_spec]; ring|].
+          rewrite Edr. cbn [cidx]. rewrite rep_list_nth by (rewrite Hsub; nia). rewrite Hsub.
+          rewrite (mod_add_small t nT v Ht). rewrite every_nth_nth by lia. f_equal. ring.
+        * apply Nat.ltb_ge in Elt. assert (nV = 1) by nia. subst nV. cbn [bind] in Hs.
+          fin hr TSamples Hwr ET Hs Hin; [rewrite Edr, Hsub; cbn [mult_spec]; lia|].
+          rewrite Edr. cbn [cidx]. rewrite every_nth_nth by lia. f_equal. nia.
+      + assert (EnT : nT = 1) by (pose proof (class_T_false_dims h Hn (eq_sym HcT)) as X; rewrite Ed in X; exact X).
+        revert Hsub. subst nT. intros Hsub. cbn [bind] in Hs. cbn [base_of has_base negb] in Hs. rewrite HmG in Hs. cbn [bind] in Hs.
+        rewrite Hst in Hs. cbn [bind] in Hs. rewrite Hsub in Hs. cbn [Nat.ltb Nat.leb bind] in Hs.
+        fin hr GConst Hwr HokG Hs Hin; [rewrite Edr, Hsub; reflexivity|].
+        rewrite Edr. cbn [cidx]. rewrite every_nth_nth by lia. f_equal. nia.
+  Qed.
+
+  Lemma preserving_slices_cases :
+    preserving (Some TSlices) = Some [VSlices; GSlices] /\ preserving (Some VSlices) = Some [GSlices].
+  Proof. vm_compute. split; reflexivity. Qed.
+
+  Lemma nth_error_nth_ok (l : list V) i : i < length l -> nth_error l i = Some (nth i l vnone).
+  Proof.
+    intros H. destruct (nth_error l i) eqn:E; [f_equal; symmetry; apply nth_error_nth; exact E|].
+    apply nth_error_None in E. lia.
+  Qed.
+
+  (** ** subset along the time axis: [_copy_sample(.., 'time', idx)] *)
+  Lemma copy_sample_time_den h hr c vs idx s' nS nT nV :
+    hwf0 h -> hwf hr -> sdim hr = sdim h ->
+    dims h = (nS, nT, nV) -> dims hr = (nS, 1, nV) ->
+    class_ok (shape hr) TSamples = false ->
+    class_ok (shape hr) VSamples = class_ok (shape h) VSamples ->
+    idx < nT -> entry_ok h c vs -> c <> GConst ->
+    copy_sample_k veqb vnone h hr c vs BTime idx = Ok s' ->
+    forall s v, s < nS -> v < nV -> den_k hr s' (s, 0, v) = den_k h (Some (c, vs)) (s, idx, v).
+  Proof.
+    intros Hw0 Hwr Hsd Ed Edr HcT HcV Hidx [Hok [Hsl Hlen]] Hc Hs s v Hps Hpv.
+    pose proof (dims_pos0 h Hw0) as Hpos. rewrite Ed in Hpos. destruct Hpos as [HS [HT HV]].
+    destruct Hw0 as [Hn [Hposh Hsdh]]. pose proof Hwr as [Hnr [_ [_ [Hht _]]]].
+    assert (Hns0 : forall d, sdim h = Some d -> n_slices h = Some nS /\ n_slices hr = Some nS).
+    { intros d Hd. rewrite (n_slices_dims0 h d (conj Hn (conj Hposh Hsdh)) Hd), Ed.
+      rewrite (n_slices_dims hr d Hwr ltac:(congruence)), Edr. split; reflexivity. }
+    destruct copy_dests_eq as [_ [_ [CS _]]]. destruct preserving_slices_cases as [PT PV].
+    assert (HokG : forall x, base_of x = BGlobal -> class_ok (shape hr) x = true).
+    { intros x Hx. rewrite (class_ok_base _ _ Hnr), Hx. reflexivity. }
+    assert (Hin : in_dims (dims hr) (s, 0, v)) by (rewrite Edr; cbn; lia).
+    assert (HokV : base_of c = BVector -> class_ok (shape hr) VSamples = true).
+    { intros Hb. rewrite HcV. rewrite (class_ok_base _ _ Hn), Hb in Hok. exact Hok. }
+    assert (Hnd4 : base_of c = BTime -> 4 <= ndim h).
+    { intros Hb. apply (class_ok_ndim _ _ Hok). exact Hb. }
+    unfold ProofsSimplify.den_k at 2. rewrite Hok, Ed. rewrite Ed in Hlen.
+    unfold copy_sample_k in Hs.
+    destruct c; try contradiction; cbn [is_samples sub_of base_of cbase_eqb cls_eqb negb andb] in Hs.
+    - (* GSlices *)
+      cbn [mult_spec] in Hlen. unfold global_slice_subset in Hs.
+      destruct (sdim h) as [d0|] eqn:Esd; [|exfalso; apply Hsl; reflexivity].
+      destruct (Hns0 _ eq_refl) as [Hnsh Hnsr]. rewrite Hnsh in Hs. rewrite class_valid_ok in Hs.
+      destruct (class_ok (shape h) VSamples) eqn:EV; cbn [negb] in Hs.
+      + assert (Hn5 : ndim h = 5) by (apply (class_ok_ndim _ _ EV); reflexivity).
+        rewrite (shape_at3_dims h ltac:(lia)), (shape_at4_dims h ltac:(lia)), Ed in Hs. cbn [fst snd bind] in Hs.
+        rewrite (put_ok hr GSlices _ Hwr (HokG GSlices eq_refl)) in Hs. cbn [bind] in Hs.
+        set (f := fun vec => py_slice (vec * (nS * nT) + idx * nS) (vec * (nS * nT) + idx * nS + nS) vs) in *.
+        assert (Hf : forall x, x < nV -> length (f x) = nS).
+        { intros x Hx. unfold f. rewrite py_slice_length; [lia|]. rewrite Hlen.
+          assert (x * (nS * nT) + (nS * nT) <= nS * nT * nV) by nia. nia. }
+        fins hr GSlices Hwr (HokG GSlices eq_refl) Hs Hin.
+        * rewrite Edr, (flat_map_blocks_length f nS nV Hf). cbn [mult_spec]. ring.
+        * rewrite Edr. cbn [cidx]. replace (s + nS * (0 + 1 * v)) with (v * nS + s) by ring.
+          rewrite (flat_map_blocks_nth f nS nV v s vnone Hf Hpv Hps). unfold f.
+          rewrite py_slice_nth by lia. f_equal. ring.
+      + assert (EnV : nV = 1) by (pose proof (class_V_false_dims h Hn EV) as X; rewrite Ed in X; exact X).
+        subst nV. cbn [bind] in Hs. rewrite (put_ok hr GSlices _ Hwr (HokG GSlices eq_refl)) in Hs. cbn [bind] in Hs.
+        fins hr GSlices Hwr (HokG GSlices eq_refl) Hs Hin.
+        * rewrite Edr, py_slice_length by (rewrite Hlen; nia). cbn [mult_spec]. lia.
+        * rewrite Edr. cbn [cidx]. rewrite py_slice_nth by lia. f_equal. nia.
+    - (* TSamples *)
+      cbn [mult_spec] in Hlen. rewrite CS in Hs. cbn [find cls_eqb negb andb] in Hs. rewrite !class_valid_ok in Hs.
+      destruct (class_ok (shape hr) VSamples) eqn:EV.
+      + cbn [bind] in Hs. rewrite (multiplicity_ok hr VSamples Hnr EV ltac:(discriminate)), Edr in Hs.
+        cbn [bind mult_spec] in Hs. destruct (nV =? 1) eqn:E1.
+        * apply Nat.eqb_eq in E1. subst nV. rewrite (nth_error_nth_ok vs idx) in Hs by (rewrite Hlen; lia).
+          rewrite (put_ok hr VSamples _ Hwr EV) in Hs. injection Hs as <-.
+          unfold ProofsSimplify.den_k. rewrite EV, Edr. cbn [cidx]. replace v with 0 by lia. cbn [nth]. f_equal. lia.
+        * rewrite (shape_at3_dims h (Hnd4 eq_refl)), Ed in Hs. cbn [fst snd] in Hs.
+          destruct nT as [|nT']; [lia|]. rewrite (put_ok hr VSamples _ Hwr EV) in Hs. cbn [bind] in Hs.
+          fin hr VSamples Hwr EV Hs Hin.
+          -- rewrite Edr. cbn [mult_spec]. apply every_nth_length; [lia | exact Hidx | exact Hlen].
+          -- rewrite Edr. cbn [cidx]. rewrite every_nth_nth by lia. f_equal. ring.
+      + assert (EnV : nV = 1) by (pose proof (class_V_false_dims h Hn (eq_sym HcV)) as X; rewrite Ed in X; exact X).
+        subst nV. rewrite (HokG GConst eq_refl) in Hs. cbn [bind] in Hs.
+        rewrite (multiplicity_ok hr GConst Hnr (HokG GConst eq_refl) ltac:(discriminate)), Edr in Hs. cbn [bind mult_spec Nat.eqb] in Hs.
+        rewrite (nth_error_nth_ok vs idx) in Hs by (rewrite Hlen; lia).
+        rewrite (put_ok hr GConst _ Hwr (HokG GConst eq_refl)) in Hs. injection Hs as <-.
+        unfold ProofsSimplify.den_k. rewrite (HokG GConst eq_refl), Edr. cbn [cidx nth]. f_equal. lia.
+    - (* TSlices *)
+      rewrite PT in Hs. unfold first_valid in Hs. cbn [find] in Hs. rewrite !class_valid_ok in Hs.
+      rewrite (class_ok_base _ VSlices Hnr) in Hs. cbn [base_of] in Hs.
+      cbn [mult_spec] in Hlen.
+      destruct (class_ok (shape hr) VSamples) eqn:EV.
+      + assert (EV' : class_ok (shape hr) VSlices = true) by (rewrite (class_ok_base _ _ Hnr); exact EV).
+        rewrite (put_ok hr VSlices _ Hwr EV') in Hs. injection Hs as <-.
+        unfold ProofsSimplify.den_k. rewrite EV', Edr. cbn [cidx]. f_equal. lia.
+      + assert (EnV : nV = 1) by (pose proof (class_V_false_dims h Hn (eq_sym HcV)) as X; rewrite Ed in X; exact X).
+        subst nV. rewrite (HokG GSlices eq_refl) in Hs.
+        rewrite (put_ok hr GSlices _ Hwr (HokG GSlices eq_refl)) in Hs. injection Hs as <-.
+        unfold ProofsSimplify.den_k. rewrite (HokG GSlices eq_refl), Edr. cbn [cidx]. f_equal. nia.
+    - (* VSamples *)
+      rewrite (put_ok hr VSamples _ Hwr (HokV eq_refl)) in Hs. injection Hs as <-.
+      unfold ProofsSimplify.den_k. rewrite (HokV eq_refl), Edr. reflexivity.
+    - (* VSlices *)
+      cbn [mult_spec] in Hlen.
+      destruct (sdim h) as [d0|] eqn:Esd; [|exfalso; apply Hsl; reflexivity].
+      destruct (Hns0 _ eq_refl) as [Hnsh Hnsr]. rewrite Hnsr in Hs.
+      assert (EV' : class_ok (shape hr) VSlices = true) by (rewrite (class_ok_base _ _ Hnr); apply HokV; reflexivity).
+      rewrite (put_ok hr VSlices _ Hwr EV') in Hs. cbn [bind] in Hs.
+      eapply (put_simplify_den hr VSlices); [exact Hwr | exact EV' | intros _; congruence | | intros _; congruence | exact Hs | exact Hin | ].
+      * rewrite Edr, py_slice_length by (rewrite Hlen; nia). cbn [mult_spec]. lia.
+      * rewrite Edr. cbn [cidx]. rewrite py_slice_nth by lia. f_equal. ring.
+  Qed.
+
+  (** ** subset along the vector axis: [_copy_sample(.., 'vector', idx)] (the source is 5-D) *)
+  Lemma copy_sample_vector_den h hr c vs idx s' nS nT nV :
+    hwf0 h -> hwf hr -> sdim hr = sdim h ->
+    dims h = (nS, nT, nV) -> dims hr = (nS, nT, 1) ->
+    class_ok (shape hr) VSamples = false ->
+    class_ok (shape hr) TSamples = class_ok (shape h) TSamples ->
+    idx < nV -> entry_ok h c vs -> c <> GConst ->
+    copy_sample_k veqb vnone h hr c vs BVector idx = Ok s' ->
+    forall s t, s < nS -> t < nT -> den_k hr s' (s, t, 0) = den_k h (Some (c, vs)) (s, t, idx).
+  Proof.
+    intros Hw0 Hwr Hsd Ed Edr HcV HcT Hidx [Hok [Hsl Hlen]] Hc Hs s t Hps Hpt.
+    pose proof (dims_pos0 h Hw0) as Hpos. rewrite Ed in Hpos. destruct Hpos as [HS [HT HV]].
+    destruct Hw0 as [Hn [Hposh Hsdh]]. pose proof Hwr as [Hnr [_ [_ [Hht _]]]].
+    assert (Hns0 : forall d, sdim h = Some d -> n_slices h = Some nS).
+    { intros d Hd. rewrite (n_slices_dims0 h d (conj Hn (conj Hposh Hsdh)) Hd), Ed. reflexivity. }
+    destruct copy_dests_eq as [_ [_ [CS _]]]. destruct preserving_slices_cases as [PT PV].
+    assert (HokG : forall x, base_of x = BGlobal -> class_ok (shape hr) x = true).
+    { intros x Hx. rewrite (class_ok_base _ _ Hnr), Hx. reflexivity. }
+    assert (Hin : in_dims (dims hr) (s, t, 0)) by (rewrite Edr; cbn; lia).
+    assert (HokT : base_of c = BTime -> class_ok (shape hr) TSamples = true).
+    { intros Hb. rewrite HcT. rewrite (class_ok_base _ _ Hn), Hb in Hok. exact Hok. }
+    assert (Hnd4 : base_of c = BTime -> 4 <= ndim h).
+    { intros Hb. apply (class_ok_ndim _ _ Hok). exact Hb. }
+    unfold ProofsSimplify.den_k at 2. rewrite Hok, Ed. rewrite Ed in Hlen.
+    unfold copy_sample_k in Hs.
+    destruct c; try contradiction; cbn [is_samples sub_of base_of cbase_eqb cls_eqb negb andb] in Hs.
+    - (* GSlices *)
+      cbn [mult_spec] in Hlen. unfold global_slice_subset in Hs.
+      destruct (sdim h) as [d0|] eqn:Esd; [|exfalso; apply Hsl; reflexivity].
+      rewrite (Hns0 _ eq_refl) in Hs.
+      destruct (shape_at h 3) as [t3|] eqn:E3; cbn [bind] in Hs; [|discriminate].
+      assert (Et3 : t3 = nT).
+      { unfold shape_at in E3. unfold dims in Ed. injection Ed as _ E _. rewrite <- E.
+        symmetry. apply nth_error_nth. exact E3. }
+      subst t3. rewrite (put_ok hr GSlices _ Hwr (HokG GSlices eq_refl)) in Hs. cbn [bind] in Hs.
+      fins hr GSlices Hwr (HokG GSlices eq_refl) Hs Hin.
+      * rewrite Edr, py_slice_length by (rewrite Hlen; nia). cbn [mult_spec]. lia.
+      * rewrite Edr. cbn [cidx]. rewrite py_slice_nth by nia. f_equal. ring.
+    - (* TSamples *)
+      cbn [mult_spec] in Hlen.
+      rewrite (multiplicity_ok hr TSamples Hnr (HokT eq_refl) ltac:(discriminate)), Edr in Hs. cbn [bind mult_spec] in Hs.
+      rewrite (put_ok hr TSamples _ Hwr (HokT eq_refl)) in Hs. cbn [bind] in Hs.
+      fin hr TSamples Hwr (HokT eq_refl) Hs Hin.
+      * rewrite Edr, py_slice_length by (rewrite Hlen; nia). cbn [mult_spec]. lia.
+      * rewrite Edr. cbn [cidx]. rewrite py_slice_nth by lia. f_equal. ring.
+    - (* TSlices *)
+      assert (ET' : class_ok (shape hr) TSlices = true) by (rewrite (class_ok_base _ _ Hnr); apply HokT; reflexivity).
+      rewrite (put_ok hr TSlices _ Hwr ET') in Hs. injection Hs as <-.
+      unfold ProofsSimplify.den_k. rewrite ET', Edr. reflexivity.
+    - (* VSamples *)
+      cbn [mult_spec] in Hlen. rewrite CS in Hs. cbn [find cls_eqb negb andb] in Hs. rewrite !class_valid_ok in Hs.
+      rewrite (HokG GConst eq_refl) in Hs. cbn [bind] in Hs.
+      rewrite (multiplicity_ok hr GConst Hnr (HokG GConst eq_refl) ltac:(discriminate)), Edr in Hs. cbn [bind mult_spec Nat.eqb] in Hs.
+      rewrite (nth_error_nth_ok vs idx) in Hs by (rewrite Hlen; lia).
+      rewrite (put_ok hr GConst _ Hwr (HokG GConst eq_refl)) in Hs. injection Hs as <-.
+      unfold ProofsSimplify.den_k. rewrite (HokG GConst eq_refl), Edr. reflexivity.
+    - (* VSlices *)
+      cbn [mult_spec] in Hlen. rewrite PV in Hs. unfold first_valid in Hs. cbn [find] in Hs. rewrite !class_valid_ok in Hs.
+      rewrite (HokG GSlices eq_refl) in Hs.
+      rewrite (put_ok hr GSlices _ Hwr (HokG GSlices eq_refl)) in Hs. injection Hs as <-.
+      unfold ProofsSimplify.den_k. rewrite (HokG GSlices eq_refl), Edr. cbn [cidx]. f_equal. ring.
+  Qed.
+
+  (** ** all paths of [get_subset] for one key *)
+  Lemma subset_k_den h hr dim idx c vs s' :
+    hwf0 h -> no_trailing1 (shape h) = true -> dim < ndim h -> idx < nth dim (shape h) 0 ->
+    subset_hdr h dim = Ok hr -> entry_ok h c vs ->
+    subset_k veqb vnone h hr dim idx (Some (c, vs)) = Ok s' ->
+    forall p, in_dims (dims hr) p ->
+      den_k hr s' p = den_k h (Some (c, vs)) (set_axis (axis_of h dim) idx p).
+  Proof.
+    intros Hw0 Hnt Hdim Hidx Hh He Hs p Hp.
+    pose proof Hw0 as [Hn [Hposh Hsdh]].
+    destruct (subset_hdr_rel h hr dim Hn Hposh Hsdh Hnt Hdim Hh) as [Hwr [Hsd [Hdims [HcT HcV]]]].
+    pose proof (axis_idx_bound h dim idx Hw0 Hdim Hidx) as Hb.
+    pose proof Hwr as [Hnr _].
+    destruct (dims h) as [[nS nT] nV] eqn:Ed.
+    pose proof He as [Hok [Hsl Hlen]].
+    unfold subset_k, visible in Hs. rewrite class_valid_ok, Hok in Hs.
+    destruct (cls_eqb_spec c GConst) as [->|Hc].
+    { assert (HG : class_ok (shape hr) GConst = true) by (rewrite (class_ok_base _ _ Hnr); reflexivity).
+      rewrite (put_ok hr GConst _ Hwr HG) in Hs. injection Hs as <-.
+      unfold ProofsSimplify.den_k. rewrite HG, Hok. destruct (dims hr) as [[? ?] ?], p as [[? ?] ?].
+      destruct (axis_of h dim); reflexivity. }
+    unfold axis_of in *. destruct p as [[s t] v].
+    destruct (odim_is (sdim h) dim) eqn:E1.
+    - (* slice axis *)
+      rewrite Hdims in Hp. cbn [in_dims] in Hp. destruct Hp as [Hs0 [Ht Hv]]. assert (s = 0) by lia. subst s.
+      cbn [set_axis].
+      destruct (is_slices c) eqn:Esl; cbn [negb] in Hs.
+      + eapply copy_slice_den; eauto.
+      + assert (Hokr : class_ok (shape hr) c = true).
+        { rewrite (class_ok_base _ _ Hnr). rewrite (class_ok_base _ _ Hn) in Hok.
+          destruct c; cbn [base_of] in *; try reflexivity; try discriminate Esl; rewrite ?HcT, ?HcV; exact Hok. }
+        rewrite (put_ok hr c _ Hwr Hokr) in Hs. injection Hs as <-.
+        unfold ProofsSimplify.den_k. rewrite Hokr, Hok, Hdims, Ed.
+        destruct c; try discriminate Esl; try contradiction; reflexivity.
+    - destruct (dim <? 3) eqn:E2.
+      + (* non-slice spatial axis: nothing changes *)
+        assert (Hokr : class_ok (shape hr) c = true).
+        { rewrite (class_ok_base _ _ Hnr). rewrite (class_ok_base _ _ Hn) in Hok.
+          destruct c; cbn [base_of] in *; try reflexivity; rewrite ?HcT, ?HcV; exact Hok. }
+        rewrite (put_ok hr c _ Hwr Hokr) in Hs. injection Hs as <-.
+        unfold ProofsSimplify.den_k. rewrite Hokr, Hok, Hdims, Ed. reflexivity.
+      + destruct (dim =? 3) eqn:E3.
+        * (* time axis *)
+          rewrite Hdims in Hp. cbn [in_dims] in Hp. destruct Hp as [Hs0 [Ht Hv]]. assert (t = 0) by lia. subst t.
+          cbn [set_axis]. eapply copy_sample_time_den; eauto.
+        * (* vector axis *)
+          rewrite Hdims in Hp. cbn [in_dims] in Hp. destruct Hp as [Hs0 [Ht Hv]]. assert (v = 0) by lia. subst v.
+          cbn [set_axis]. eapply copy_sample_vector_den; eauto.
+  Qed.
+
+  (** ** lifting to whole extensions *)
+  Lemma dedup_keys_spec seen l k : In k (dedup_keys seen l) <-> In k l /\ ~ In k seen.
+  Proof.
+    revert seen. induction l as [|x r IH]; intros seen; cbn [dedup_keys]; [tauto|].
+    destruct (mem_key x seen) eqn:E.
+    - apply mem_key_In in E. rewrite IH. cbn [In]. split; [tauto|]. intros [[->|H] Hn]; [contradiction | tauto].
+    - assert (Hx : ~ In x seen) by (intros H; apply mem_key_In in H; congruence).
+      cbn [In]. rewrite IH. cbn [In]. split.
+      + intros [->|[H Hn]]; [tauto|]. split; [tauto|]. intros Hs. apply Hn. right; exact Hs.
+      + intros [[->|H] Hn]; [tauto|]. destruct (str_eqb_spec x k) as [->|Hne]; [tauto|].
+        right. split; [exact H|]. intros [->|Hs]; [congruence | contradiction].
+  Qed.
+
+  Lemma dedup_keys_NoDup seen l : NoDup (dedup_keys seen l).
+  Proof.
+    revert seen. induction l as [|x r IH]; intros seen; cbn [dedup_keys]; [constructor|].
+    destruct (mem_key x seen); [apply IH|]. constructor; [|apply IH].
+    rewrite dedup_keys_spec. cbn [In]. tauto.
+  Qed.
+
+  Lemma assoc_In' (l : list (key * (cls * list V))) k x : assoc k l = Some x -> In (k, x) l.
+  Proof.
+    induction l as [|[k' y] r IH]; cbn [assoc]; [discriminate|].
+    unfold key_eqb. destruct (str_eqb_spec k k') as [->|_].
+    - intros H; injection H as ->. left; reflexivity.
+    - intros H; right; auto.
+  Qed.
+
+  Lemma assoc_not_in (l : list (key * (cls * list V))) k : ~ In k (map fst l) -> assoc k l = None.
+  Proof.
+    induction l as [|[k' x] r IH]; cbn [assoc map fst In]; [reflexivity|]. intros H.
+    unfold key_eqb. destruct (str_eqb_spec k k') as [->|_]; [exfalso; apply H; left; reflexivity|].
+    apply IH. tauto.
+  Qed.
+
+  Lemma collect_keys (l : list (key * kst V)) k : In k (map fst (collect l)) -> In k (map fst l).
+  Proof.
+    induction l as [|[k' [x|]] r IH]; cbn [collect map fst In]; [tauto| |]; intros H; [destruct H; [left; exact H|right; auto] | right; auto].
+  Qed.
+
+  Lemma map_keys_lookup (f : key -> res (kst V)) keys ents :
+    NoDup keys -> map_keys f keys = Ok ents ->
+    forall k, (In k keys -> exists s, f k = Ok s /\ assoc k ents = s) /\ (~ In k keys -> assoc k ents = None).
+  Proof.
+    unfold map_keys. revert ents. induction keys as [|k0 r IH]; intros ents Hnd H k.
+    - cbn in H. injection H as <-. split; [intros []| reflexivity].
+    - cbn [mapM] in H. destruct (f k0) as [s0|] eqn:Ef; cbn [bind] in H; [|discriminate].
+      destruct (mapM (fun k1 => (do s <- f k1; Ok (k1, s))%res) r) as [l'|] eqn:Em; [|discriminate].
+      cbn [bind] in H. injection H as <-. inversion Hnd as [|? ? Hk0 Hr]; subst.
+      specialize (IH (collect l') Hr). try rewrite Em in IH. cbn [bind] in IH. specialize (IH eq_refl).
+      assert (Hnone : assoc k0 (collect l') = None) by (apply (IH k0); exact Hk0).
+      split.
+      + intros [->|Hin].
+        * exists s0. split; [exact Ef|]. destruct s0 as [x|]; cbn [collect assoc].
+          -- unfold key_eqb. rewrite str_eqb_refl. reflexivity.
+          -- exact Hnone.
+        * destruct (proj1 (IH k) Hin) as [s [Hf Ha]]. exists s. split; [exact Hf|].
+          destruct s0 as [x|]; cbn [collect assoc]; [|exact Ha].
+          unfold key_eqb. destruct (str_eqb_spec k k0) as [->|_]; [contradiction | exact Ha].
+      + intros Hn. cbn [In] in Hn. destruct s0 as [x|]; cbn [collect assoc].
+        * unfold key_eqb. destruct (str_eqb_spec k k0) as [->|_]; [tauto|]. apply (IH k). tauto.
+        * apply (IH k). tauto.
+  Qed.
+
+  (** C04 at the extension level: [get_subset] is restriction of the denotation *)
+  Theorem subset_den (e r : ext V) dim idx :
+    valid e -> no_trailing1 (shape (hdr_of e)) = true ->
+    dim < ndim (hdr_of e) -> idx < nth dim (shape (hdr_of e)) 0 ->
+    get_subset veqb vnone e dim idx = Ok r ->
+    forall k p, in_dims (dims (hdr_of r)) p ->
+      den vnone r k p = den vnone e k (set_axis (axis_of (hdr_of e) dim) idx p).
+  Proof.
+    intros [[Hn [Hpos [Hsd _]]] [_ Hent]] Hnt Hdim Hidx Hg k p Hp.
+    unfold get_subset in Hg.
+    apply bind_ok in Hg as [hr [Hh Hg]]. apply bind_ok in Hg as [u [_ Hg]].
+    apply bind_ok in Hg as [ents [Hm Hg]]. injection Hg as <-. cbn [hdr_of] in Hp.
+    rewrite !den_den_k. unfold lookup_e at 1. cbn [hdr_of entries].
+    pose proof (map_keys_lookup _ _ _ (dedup_keys_NoDup [] (keys_e e)) Hm k) as [Hin Hout].
+    destruct (lookup_e e k) as [[c vs]|] eqn:El.
+    - assert (Hk : In k (dedup_keys [] (keys_e e))).
+      { apply dedup_keys_spec. split; [|tauto]. unfold lookup_e in El. apply assoc_In' in El.
+        unfold keys_e. apply in_map_iff. exists (k, (c, vs)). split; [reflexivity | exact El]. }
+      destruct (Hin Hk) as [s' [Hf Ha]]. rewrite Ha. cbn beta in Hf. try rewrite El in Hf.
+      eapply subset_k_den; eauto; [exact (conj Hn (conj Hpos Hsd))|].
+      unfold lookup_e in El. apply assoc_In' in El. exact (Hent _ _ _ El).
+    - destruct (in_dec (list_eq_dec N.eq_dec) k (dedup_keys [] (keys_e e))) as [Hk|Hk].
+      + destruct (Hin Hk) as [s' [Hf Ha]]. rewrite Ha. cbn beta in Hf. try rewrite El in Hf. cbn in Hf. injection Hf as <-. reflexivity.
+      + rewrite (Hout Hk). reflexivity.
   Qed.
 End WithV.
